@@ -139,6 +139,22 @@ fn replay_file(path: &str) -> Result<i32, String> {
                 Ok(0)
             }
         }
-        _ => Err(format!("unknown replay engine {:?}", engine)),
+        _ => {
+            // enumeration engines (E3/E4): the replay file names the case by property, tier and
+            // signature and carries the complete failing input in `detail`; the case is re-found by
+            // re-running the deterministic enumeration in a child process that writes nothing
+            let prop = v["property"].as_str().ok_or("replay file has no property")?;
+            let sig = v["signature"].as_str().ok_or("replay file has no signature")?;
+            let tier = v["tier"].as_str().unwrap_or("quick");
+            println!("recorded case: {}", v["message"].as_str().unwrap_or(""));
+            println!("re-running the {} enumeration of {} looking for signature {:?}", tier, prop, sig);
+            let exe = std::env::current_exe().map_err(|e| e.to_string())?;
+            let st = std::process::Command::new(exe)
+                .args([prop, "--tier", tier])
+                .env("VX_REPLAY_SIG", sig)
+                .status()
+                .map_err(|e| e.to_string())?;
+            Ok(st.code().unwrap_or(2))
+        }
     }
 }
